@@ -1,7 +1,9 @@
-\* C18: Project.tla as the pinned tree behaves, ALL FOUR (resolver layout x exec layout) combinations; labelled
-\* edges for the multi-process replay. 2 resolver fields, 2 edit records, helper {h}, import {alias}, histories <= 4
-\* (so that the state after a Generate at depth 3 still has its own Generate edge = the idempotence prediction).
-\* Measured: 4 528 states, 13 846 edges (1 328 Generate edges), 7 s.
+\* C18: Project.tla as the pinned tree behaves, ALL FOUR (resolver layout x exec layout) combinations without autobind
+\* + two configurations whose autobind list contains the model output package (follow/single/hand, single/follow/model);
+\* labelled edges for the multi-process replay. 2 resolver fields, 2 edit records, helper {h}, import {alias}, root
+\* struct customisation {rf}, histories <= 4 (so that the state after a Generate at depth 3 still has its own Generate
+\* edge = the idempotence prediction).
+\* Measured: 9 708 states, 29 433 edges, 6 initial states, 20 s (4 configurations, no root struct: 4 528 / 13 846, 7 s).
 INIT Init
 NEXT Next
 CONSTANTS
